@@ -65,6 +65,11 @@ type Op struct {
 type Case struct {
 	Sessions [][]Op `json:"sessions"`
 	Repeat   int    `json:"repeat"`
+	// Hubs > 0: before the sessions start, vertices hub-0..hub-(Hubs-1) are stored, each
+	// with Spokes edges sp-<h>-<i> (hub -> leaf-<h>-<i>). They belong to no session: the ops
+	// hubDel / spokesDel / spokesMove of different sessions collide on them.
+	Hubs   int `json:"hubs,omitempty"`
+	Spokes int `json:"spokes,omitempty"`
 }
 
 var (
@@ -188,7 +193,7 @@ func runCase(t pbt.TB, c Case) {
 		wr := false
 		for _, op := range s {
 			switch op.Kind {
-			case "churn": // contends for the shared label index
+			case "churn", "hubDel", "spokesDel", "spokesMove": // contend for the shared label index / one vertex's adjacency
 				wr, shared = true, true
 			case "putV", "putE", "delV", "delE", "bulk":
 				wr = true
@@ -319,6 +324,28 @@ func runCase(t pbt.TB, c Case) {
 						wk.Srv.Edit.AddEdge(cctx, &gripql.GraphElement{Graph: g, Edge: &gripql.Edge{Gid: fmt.Sprintf("pe%d-%s", si, op.ID), Label: "E", From: op.From, To: op.To, Data: d}})
 					case "delE":
 						wk.Srv.Edit.DeleteEdge(cctx, &gripql.ElementID{Graph: g, Id: fmt.Sprintf("pe%d-%s", si, op.ID)})
+					case "hubDel": // a vertex whose many edges other sessions are removing or moving right now
+						wk.Srv.Edit.DeleteVertex(cctx, &gripql.ElementID{Graph: g, Id: fmt.Sprintf("hub-%d", op.N)})
+					case "spokesDel":
+						for i := 0; i < c.Spokes; i++ {
+							c2, cancel2 := context.WithTimeout(ctx, 30*time.Second)
+							wk.Srv.Edit.DeleteEdge(c2, &gripql.ElementID{Graph: g, Id: fmt.Sprintf("sp-%d-%d", op.N, i)})
+							cancel2()
+						}
+					case "spokesMove":
+						for i := c.Spokes - 1; i >= 0; i-- {
+							c2, cancel2 := context.WithTimeout(ctx, 30*time.Second)
+							wk.Srv.Edit.AddEdge(c2, &gripql.GraphElement{Graph: g, Edge: &gripql.Edge{Gid: fmt.Sprintf("sp-%d-%d", op.N, i), Label: "S2", From: fmt.Sprintf("leaf-%d-%d", op.N, i), To: "elsewhere"}})
+							cancel2()
+						}
+					case "hubRead":
+						if s, err := wk.Srv.Query.Traversal(cctx, &gripql.GraphQuery{Graph: g, Query: gripql.NewQuery().V(fmt.Sprintf("hub-%d", op.N)).OutE().Statements}); err == nil {
+							for {
+								if _, err := s.Recv(); err != nil {
+									break
+								}
+							}
+						}
 					case "bulk":
 						if s, err := wk.Srv.Edit.BulkAdd(cctx); err == nil {
 							ids := []string{}
@@ -469,6 +496,22 @@ func runCase(t pbt.TB, c Case) {
 					cancel()
 				}
 			}(si, ops)
+		}
+		if c.Hubs > 0 {
+			sctx, scancel := context.WithTimeout(ctx, 120*time.Second)
+			if bs, err := wk.Srv.Edit.BulkAdd(sctx); err == nil {
+				for h := 0; h < c.Hubs; h++ {
+					bs.Send(&gripql.GraphElement{Graph: gname, Vertex: &gripql.Vertex{Gid: fmt.Sprintf("hub-%d", h), Label: "H"}})
+					for i := 0; i < c.Spokes; i++ {
+						bs.Send(&gripql.GraphElement{Graph: gname, Edge: &gripql.Edge{Gid: fmt.Sprintf("sp-%d-%d", h, i), Label: "S", From: fmt.Sprintf("hub-%d", h), To: fmt.Sprintf("leaf-%d-%d", h, i)}})
+					}
+				}
+				if _, err := bs.CloseAndRecv(); err != nil {
+					scancel()
+					t.Fatalf("INFRA: hub setup: %v", err)
+				}
+			}
+			scancel()
 		}
 		close(start)
 		done := make(chan struct{})
@@ -621,6 +664,36 @@ func TestContention(t *testing.T) {
 			c.Sessions = append(c.Sessions, ops)
 		}
 		pbt.Class(rt, "contention-burst")
+		if pbt.WantSample(rt) {
+			pbt.Sample(rt, c)
+		}
+		runCase(rt, c)
+	})
+}
+
+// TestStructuralContention: sessions delete a vertex while other sessions delete or move
+// the edges incident to it (and a reader walks them). There is no unique final state for
+// these elements and none is judged; the server must survive, race-free.
+func TestStructuralContention(t *testing.T) {
+	pbt.Check(t, 8, 160, func(rt *rapid.T) {
+		c := Case{Repeat: 1, Hubs: rapid.IntRange(1, 3).Draw(rt, "hubs"), Spokes: rapid.SampledFrom([]int{40, 150, 400}).Draw(rt, "spokes")}
+		ns := rapid.IntRange(2, 6).Draw(rt, "sessions")
+		for s := 0; s < ns; s++ {
+			n := rapid.IntRange(1, 3).Draw(rt, fmt.Sprintf("s%d.len", s))
+			var ops []Op
+			for i := 0; i < n; i++ {
+				k := rapid.SampledFrom([]string{"hubDel", "hubDel", "spokesDel", "spokesDel", "spokesMove", "hubRead"}).Draw(rt, fmt.Sprintf("s%d.op%d", s, i))
+				if s == 0 && i == 0 {
+					k = "hubDel"
+				}
+				if s == 1 && i == 0 {
+					k = "spokesDel"
+				}
+				ops = append(ops, Op{Kind: k, N: rapid.IntRange(0, c.Hubs-1).Draw(rt, fmt.Sprintf("s%d.hub%d", s, i))})
+			}
+			c.Sessions = append(c.Sessions, ops)
+		}
+		pbt.Class(rt, "structural-contention")
 		if pbt.WantSample(rt) {
 			pbt.Sample(rt, c)
 		}
